@@ -312,8 +312,10 @@ func (viso *VirtualISO) makeDirEntries(item *dirItem, joliet bool) error {
 		// link parent directory
 		dotDotEntry.RecordingDateTime = recordingTimestamp(parent.modTime)
 		dotDotEntry.ExtentLocation = parent.dirEntry[0].ExtentLocation
+		dotDotEntry.ExtentLength = parent.dirEntry[0].ExtentLength
 		if joliet {
 			dotDotEntry.ExtentLocation = parent.dirEntryJoliet[0].ExtentLocation
+			dotDotEntry.ExtentLength = parent.dirEntryJoliet[0].ExtentLength
 		}
 	} else {
 		dotDotEntry.RecordingDateTime = dotEntry.RecordingDateTime
